@@ -1083,6 +1083,12 @@ def check_stale_reads(facts, tr, rep, rule, body, adt_def):
                         # from just after the write to the use without a redefinition of l
                         if not _reaches_unkilled(g, l, (wb, wj + 1), (ub, ui)):
                             continue
+                        # a comparison right below the update, on a path where the update always happened, is the update
+                        # deciding *how* to proceed from what it measured (`self.start = now; if periods_passed >= 2 { .. }`):
+                        # the value is meant to describe the state before; what is looked for is such a value leaving the
+                        # update (returned, stored, used where the update may or may not have happened)
+                        if ui < len(g.stmts(ub)) and (wb == ub or g.node_dominates(wb, ub)) and _only_compared(g, body, ub, ui):
+                            continue
                         if (key, wb, wj) in seen_pairs:
                             continue
                         seen_pairs.add((key, wb, wj))
@@ -1091,6 +1097,34 @@ def check_stale_reads(facts, tr, rep, rule, body, adt_def):
                                "`%s` was computed from self.%s (%s) and is used here after self.%s was overwritten (%s): it describes the state before "
                                "the update" % (body.local_name(l) or "_%d" % l, f, g.where(db, di), f, g.where(wb, wj)))
     return n
+
+
+def _only_compared(g, body, bb, idx, depth=0):
+    """the statement at (bb, idx) is a comparison, or copies/casts its operand into a compiler temporary that is only
+    compared (within the same block)"""
+    st = g.stmts(bb)[idx]
+    if st["k"] != "assign":
+        return False
+    rv = st["rv"]
+    if rv["k"] == "binop" and rv["op"] in ("Lt", "Le", "Gt", "Ge", "Eq", "Ne"):
+        return True
+    if rv["k"] not in ("use", "cast") or st["lhs"]["p"] or body.locals[st["lhs"]["l"]].get("user") or depth > 2:
+        return False
+    t = st["lhs"]["l"]
+    found = False
+    for j in range(idx + 1, len(g.stmts(bb))):
+        s2 = g.stmts(bb)[j]
+        if s2["k"] != "assign":
+            continue
+        ops = [s2["rv"].get("op"), s2["rv"].get("a"), s2["rv"].get("b")] + list(s2["rv"].get("ops", []))
+        if any(isinstance(o, dict) and (o.get("copy") or o.get("move") or {}).get("l") == t for o in ops):
+            if not _only_compared(g, body, bb, j, depth + 1):
+                return False
+            found = True
+    tm = g.term(bb)
+    if tm["k"] == "call" and any((a.get("copy") or a.get("move") or {}).get("l") == t for a in tm["args"]):
+        return False
+    return found
 
 
 def _reaches_unkilled(g, local, start, goal):
